@@ -272,3 +272,26 @@ func VH_C20_answer_per_address() {
 	}
 	verifReach("C20.per-address.done", true)
 }
+
+// C16: a datagram whose handling overlapped the end of its association is reported after the
+// association's removal (the handler looked the association up before it expired): its bytes go
+// under the key of that association, whatever other associations were created in the meantime
+func VH_C16_late_report_after_removal() {
+	verifInstallClock(1 << 41)
+	m, _ := NewServiceMetrics(nil)
+	a := m.AddUDPNatEntry(&net.UDPAddr{IP: net.IPv4(203, 0, 113, 5), Port: 40000}, "key-A")
+	a.AddPacketFromClient("OK", 100, 40)
+	verifAdvance()
+	a.RemoveNatEntry()
+	b := m.AddUDPNatEntry(&net.UDPAddr{IP: net.IPv4(203, 0, 113, 6), Port: 40001}, "key-B")
+	late := verifI64("late-bytes")
+	verifAssume(late > 0 && late < 1<<20)
+	a.AddPacketFromClient("OK", late, 7) // the late report of the first association
+	b.AddPacketFromClient("OK", 55, 11)
+	verifAdvance()
+	b.RemoveNatEntry()
+	pk := m.udpServiceMetrics.proxyCollector.dataBytesPerKey
+	verifAssert("C16.late-report.under-its-own-key", verifCounterValue(pk, "int", "c>p", "key-A") == 100+late && verifCounterValue(pk, "int", "c>p", "key-B") == 55)
+	verifAssert("C16.late-report.payload-bytes", verifCounterValue(pk, "int", "p>t", "key-A") == 47 && verifCounterValue(pk, "int", "p>t", "key-B") == 11)
+	verifReach("C16.late-report.done", true)
+}
